@@ -763,7 +763,23 @@ class SamplingMethod(DirectMethod):
 
         self.time_grid.bounds_finalize(opti, self.control_grid, self.t0_local, self.t0+self.T, self.N)
 
+    def check_grid_bounds(self):
+        # With a fixed horizon the interval lengths are numbers and min/max of the grid cannot be imposed by the NLP
+        # (the comparison is constant): refuse the problem when they do not hold instead of dropping them silently
+        try:
+            lo, hi = float(getattr(self.time_grid, 'min', 0)), float(getattr(self.time_grid, 'max', inf))
+            cg = self.control_grid
+            cg = np.array(ca.evalf(ca.vcat(cg) if isinstance(cg, list) else ca.vec(cg))).reshape(-1)
+        except Exception:
+            return # symbolic grid or bounds: handled by the NLP constraints
+        lengths = np.diff(cg)
+        tol = 1e-12*(1+np.max(np.abs(cg)))
+        if np.any(lengths < lo-tol) or np.any(lengths > hi+tol):
+            raise Exception("The min/max bounds of the time grid (%s, %s) do not hold for the control intervals %s of the given horizon" % (lo, hi, lengths))
+
     def add_coupling_constraints(self, stage, opti, k):
+        if k==0:
+            self.check_grid_bounds()
         advanced = opti.advanced
         for c,kwargs in self.time_grid.bounds_T(self.T_local, self.t0_local, k, self.T, self.N):
             if not advanced.is_parametric(c):
